@@ -89,7 +89,48 @@ class CallGraph:
                         t = self.expr_class(fi, v.func.value, out)
                         if t:
                             out[n.targets[0].id] = t
+        # loop variables: element class of the iterated expression
+        for _ in range(2):
+            for n in walk_no_nested(node):
+                if isinstance(n, (ast.For, ast.comprehension)):
+                    self._bind_loop(fi, n.target, n.iter, out)
         return out
+
+    DUCK_ELEMS = {"pages": "PageContext", "bodies": "RTFBody", "headers": "RTFColumnHeader",
+                  "headers_to_process": "RTFColumnHeader", "section_headers": "RTFColumnHeader"}
+
+    def _elem_class(self, fi: FuncInfo, it: ast.AST, out: dict[str, str]) -> str | None:
+        if isinstance(it, ast.Name):
+            if it.id in self.DUCK_ELEMS:
+                return self.DUCK_ELEMS[it.id]
+        if isinstance(it, (ast.List, ast.Tuple)) and it.elts:
+            return self.expr_class(fi, it.elts[0], out)
+        if isinstance(it, ast.Attribute):
+            base = self.expr_class(fi, it.value, out)
+            if base:
+                ann = self.pm.field_ann(base, it.attr)
+                if ann:
+                    cs = [t for t in re.findall(r"[A-Za-z_][A-Za-z_0-9]*", ann) if t in self.pm.classes]
+                    if cs:
+                        return cs[0]
+        if isinstance(it, ast.Call) and dotted(it.func) in ("enumerate", "reversed", "sorted", "list"):
+            return self._elem_class(fi, it.args[0], out) if it.args else None
+        return None
+
+    def _bind_loop(self, fi: FuncInfo, target: ast.AST, it: ast.AST, out: dict[str, str]) -> None:
+        if isinstance(it, ast.Call) and dotted(it.func) == "zip" and isinstance(target, (ast.Tuple, ast.List)):
+            for t, a in zip(target.elts, it.args):
+                self._bind_loop(fi, t, a, out)
+            return
+        if isinstance(it, ast.Call) and dotted(it.func) == "enumerate" and isinstance(target, (ast.Tuple, ast.List)) and len(target.elts) == 2:
+            inner = it.args[0] if it.args else None
+            if inner is not None:
+                self._bind_loop(fi, target.elts[1], inner, out)
+            return
+        if isinstance(target, ast.Name) and target.id not in out:
+            c = self._elem_class(fi, it, out)
+            if c:
+                out[target.id] = c
 
     def expr_class(self, fi: FuncInfo, e: ast.AST, local: dict[str, str] | None = None) -> str | None:
         local = local if local is not None else self.local_types(fi)
@@ -198,6 +239,12 @@ class CallGraph:
         init = self.pm.find_method(cname, "__init__")
         if init:
             out.append(init)
+        new = self.pm.find_method(cname, "__new__")
+        if new:
+            out.append(new)
+        post = self.pm.find_method(cname, "__post_init__") or self.pm.find_method(cname, "model_post_init")
+        if post:
+            out.append(post)
         # pydantic validators run at construction
         for c in self.pm.mro(cname):
             ci = self.pm.classes.get(c)
